@@ -143,9 +143,63 @@ static void* fib(void* p) {
   }
   return NULL;
 }
+/* ---- very long sleeps (over an hour): they cannot be waited for, but they must not return early.
+ * A handful of detached fibers ask for (seconds, microseconds) combinations around 2^32 microseconds and
+ * multiples of it; the main fiber sleeps a second or two and then none of them may have returned. ---- */
+static volatile int ls_returned[6];
+static struct {
+  uint32_t sec, usec;
+  int via;
+} ls_spec[6];
+static void* ls_fiber(void* p) {
+  const int i = (int)(intptr_t)p;
+  switch (ls_spec[i].via) {
+    case 0: fiber_sleep(ls_spec[i].sec, ls_spec[i].usec); break;
+    case 1: sleep(ls_spec[i].sec); break;
+    default: {
+      struct timespec ts = {.tv_sec = ls_spec[i].sec, .tv_nsec = (long)ls_spec[i].usec * 1000};
+      nanosleep(&ts, NULL);
+    }
+  }
+  ls_returned[i] = 1;
+  return NULL;
+}
+static void run_long_sleepers(sim_cfg_t c) {
+  static const uint32_t secs[] = {4294, 4295, 4296, 8589, 8590, 12885, 3600, 86400, 604800, 4000000};
+  const int n = wl_int(1, 4);
+  char d[260];
+  int dk = 0;
+  for (int i = 0; i < n; i++) {
+    ls_spec[i].sec = secs[wl_pick(10)];
+    ls_spec[i].usec = wl_pct(50) ? 0 : (uint32_t)wl_int(0, 999999);
+    if (wl_pct(25)) ls_spec[i].usec = 967296 + (uint32_t)wl_int(0, 8) * 4000; /* 4294 s + 967296 us = 2^32 us */
+    ls_spec[i].via = wl_pick(3);
+    dk += snprintf(d + dk, sizeof d - dk, "%us+%uus/%d ", ls_spec[i].sec, ls_spec[i].usec, ls_spec[i].via);
+  }
+  const int wait_ms = wl_int(1, 6) * 100;
+  sim_scenario("long-sleepers");
+  sim_describe("threads=%d long sleepers: %s(0 fiber_sleep, 1 sleep, 2 nanosleep); checked after %d ms", c.threads, d, wait_ms);
+  sim_nontrivial();
+  /* the library counts milliseconds in ticks of 5 ms: its own deadline for the main fiber's sleep, plus 40 ticks */
+  sim_set_quiet_ns((uint64_t)(wait_ms + 2) * 5000000ull * 3 + 40 * 5000000ull);
+  sim_fiber_mode();
+  fiber_manager_init(c.threads);
+  for (int i = 0; i < n; i++) fiber_detach(fiber_create(STK, ls_fiber, (void*)(intptr_t)i));
+  const uint64_t t0 = sim_now();
+  fiber_sleep(0, (uint32_t)wait_ms * 1000);
+  for (int i = 0; i < n; i++)
+    if (ls_returned[i])
+      sim_violation("C09-early-wake", "a fiber asked to sleep %u s + %u us and had returned when looked at %lu ms later", ls_spec[i].sec, ls_spec[i].usec,
+                    (unsigned long)((sim_now() - t0) / 1000000));
+  sim_finish_ok(); /* the sleepers stay asleep: nothing to join */
+}
 void h_run(void) {
   sim_cfg_t c = sim_config(1, 3, 40, FBIT(F_STALL));
   nthreads = c.threads;
+  if (wl_pct(6)) {
+    run_long_sleepers(c);
+    return;
+  }
   static const uint64_t durs[] = {0, 300, 999, 1000, 3000, 5000, 7000, 12000, 12000, 25000, 60000, 250000, 1000300, 2007000};
   const int ndur = sim_tier_thorough() || wl_pct(15) ? 14 : 12; /* sleeps of a second and more: simulated time is cheap */
   if (wl_pct(22)) {
